@@ -8,7 +8,7 @@ EXTENDS Naturals, Sequences, SequencesExt, FiniteSets, TLC, JCommon
 FirstBad(c, P(_)) == LET S == { k \in 1..Len(c.calls) : ~P(c.calls[k]) } IN
                      IF S = {} THEN 0 ELSE CHOOSE k \in S : \A j \in S : k <= j
 Judge_session(c) ==
-  LET leak == FirstBad(c, LAMBDA e : e.res = e.fresh)
+  LET leak == FirstBad(c, LAMBDA e : e.res = e.fresh /\ e.res.must)        \* must: a condition the call checks on its own result (e.g. interleaved = sequential)
       mut == FirstBad(c, LAMBDA e : e.args_before = e.args_after)
   IN << IF leak = 0 THEN Cl("C17.fresh", "ok") ELSE Cl("C17.fresh@" \o c.calls[leak].name, "fail"),
         IF mut = 0 THEN Cl("C17.args_intact", "ok") ELSE Cl("C17.args_intact@" \o c.calls[mut].name, "fail") >>
